@@ -461,7 +461,7 @@ Definition e2e_inject_judge (case out : list Z) : bool :=
 (* ------------------------------------------------------------------------------------------ *)
 (* e2e_pn (C08): packet numbers and acknowledgements                                          *)
 (* ------------------------------------------------------------------------------------------ *)
-(* [1, watchdog, connect_ok, end_us, max_ack_delay_us, capped, n_rows, rows x8]
+(* [1, watchdog, connect_ok, end_us, client max_ack_delay_us, capped, n_rows, server max_ack_delay_us, rows x8]
    row = (kind, endpoint, space, a, b, t_us, _, _), in order of occurrence:
    0 packet built for sending (a = packet number, b = ack eliciting)
    1 packet processed (a = packet number, b = ack eliciting)
@@ -547,16 +547,17 @@ Fixpoint times_ok (last : Z) (l : list xrow) : bool :=
   | r :: t => (last <=? x_t r) && times_ok (x_t r) t
   end.
 
-Definition pn_monitor (endt mad : Z) (l : list xrow) : bool :=
+(* mad0 / mad1: the max_ack_delay the client / the server itself advertised *)
+Definition pn_monitor (endt mad0 mad1 : Z) (l : list xrow) : bool :=
   times_ok 0 l &&
   forallb (fun ep => forallb (fun sp => incr1 ep sp (-1) l && ack1 ep sp [] l) [0; 1; 2]) [0; 1] &&
-  ackt 0 (mad + ACK_SLACK_US) endt [] (-1) l && ackt 1 (mad + ACK_SLACK_US) endt [] (-1) l.
+  ackt 0 (mad0 + ACK_SLACK_US) endt [] (-1) l && ackt 1 (mad1 + ACK_SLACK_US) endt [] (-1) l.
 
 Definition e2e_pn_judge (case out : list Z) : bool :=
-  if negb ((nz out 0 =? 1) && Nat.leb 7 (length out)) then false else
-  match take_rows 8 (nz out 6) (skipn 7 out) with
+  if negb ((nz out 0 =? 1) && Nat.leb 8 (length out)) then false else
+  match take_rows 8 (nz out 6) (skipn 8 out) with
   | Some (rws, []) =>
-      pn_monitor (nz out 3) (nz out 4) (map mk_xrow rws)
+      pn_monitor (nz out 3) (nz out 4) (nz out 7) (map mk_xrow rws)
   | _ => false
   end.
 
